@@ -9,7 +9,7 @@ use std::time::Instant;
 pub fn cases(ctx: &Ctx) -> Vec<WCase> {
     let mut out = vec![];
     let mut r = Rng::new(ctx.seed ^ 0xC04);
-    for i in 0..ctx.n(2000, 90_000) {
+    for i in 0..ctx.n(8000, 400_000) {
         let mut rr = r.fork(i as u64);
         let mut s = gen_starved(&mut rr, 400);
         // cover the whole grid windows 0..=12 x delays 0..=6 systematically
@@ -17,7 +17,7 @@ pub fn cases(ctx: &Ctx) -> Vec<WCase> {
         s.delay = (i / 13) % 7;
         out.push(wcase(format!("starved-{i}"), s));
     }
-    for i in 0..ctx.n(600, 30_000) {
+    for i in 0..ctx.n(2500, 120_000) {
         let mut rr = r.fork(0x2000_0000 + i as u64);
         let mut s = gen_death2(&mut rr, 400);
         s.mp = i % 13;
